@@ -12,22 +12,34 @@ open Opt OptSem Ir
 variable {w : Nat}
 
 /-- What the parent needs of a non-moving child BEFORE the child's own `emitAll`. -/
-structure ChildPre (shP shC : Int) (pc : List (Rebuild w)) (sub0 sub : Rebuild w) (cS : Int)
-    (bodyS : List (Instr w)) : Prop where
-  rep : ChildRep shP shC pc sub0 [] sub bodyS
-  foot : FootStepV (Valid shP sub0 pc) sub0 sub sub.insts
-  badfoot : FootBadV (Valid shP sub0 pc) sub0 sub sub.insts
-  frame2 : FootFrameV (Valid shP sub0 pc) sub0 sub sub.insts
+structure ChildPre (Gc : State w → Prop) (shP shC : Int) (pc : List (Rebuild w)) (sub0 sub : Rebuild w)
+    (cS : Int) (bodyS : List (Instr w)) : Prop where
+  rep : ChildRep Gc shP shC pc sub0 [] sub bodyS
+  foot : FootStepV (ValidG Gc shP sub0 pc) sub0 sub sub.insts
+  badfoot : FootBadV (ValidG Gc shP sub0 pc) sub0 sub sub.insts
+  frame2 : FootFrameV (ValidG Gc shP sub0 pc) sub0 sub sub.insts
   noShift : sub.subShift = false
   w0 : sub0.written = []
-  entry : ∀ σE σS : State w, SameMem shP σS σE → σS.rd cS ≠ 0#w → ∃ M0, RelAt shP sub0 pc M0 σE σS
+  entry : ∀ σE σS : State w, SameMem shP σS σE → σS.rd cS ≠ 0#w → Gc σS → ∃ M0, RelAt shP sub0 pc M0 σE σS
   wf : Wf sub
 
-theorem ChildPre.emit {shP shC : Int} {pc : List (Rebuild w)} {sub0 sub : Rebuild w} {cS : Int}
-    {bodyS : List (Instr w)} (h : ChildPre shP shC pc sub0 sub cS bodyS) {os os1 : Orders} {sub1 : Rebuild w}
+/-- Badness mirroring composes (first half of the code, then code without blocks). -/
+theorem FootBadV.then_noBlocks {V : State w → Prop} {a b c : Rebuild w} {n1 n2 : List (Instr w)}
+    (b1 : FootBadV V a b n1) (h2 : ∀ i ∈ n2, C01Dse.isBlock i = false) (hm : ReadsMono b c) :
+    FootBadV V a c (n1 ++ n2) := by
+  intro hs K hK σ1 σ2 v1 hag hbad
+  have hsb := hm.2 hs
+  have hKb : ∀ v, K v → v ∉ b.reads := fun v hv' hr => hK v hv' (hm.1 v hr)
+  rcases bad_append.1 hbad with hb | ⟨σ2', _, hb⟩
+  · exact bad_append.2 (Or.inl (b1 hsb K hKb σ1 σ2 v1 hag hb))
+  · exact absurd hb (not_bad_of_noBlocks h2 σ2')
+
+theorem ChildPre.emit {Gc : State w → Prop} {shP shC : Int} {pc : List (Rebuild w)} {sub0 sub : Rebuild w}
+    {cS : Int}
+    {bodyS : List (Instr w)} (h : ChildPre Gc shP shC pc sub0 sub cS bodyS) {os os1 : Orders} {sub1 : Rebuild w}
     (h1 : ((if !sub.noReturn then emitAll [] (pendingSorted sub sub) sub else pure sub : M (Rebuild w)).run os
       = .ok (sub1, os1))) :
-    ChildOk shP shC pc sub0 sub1 cS bodyS ∧ Wf sub1 ∧ sub1.shift = sub.shift := by
+    ChildOk Gc shP shC pc sub0 sub1 cS bodyS ∧ Wf sub1 ∧ sub1.shift = sub.shift := by
   split at h1
   · obtain ⟨c, res, hcl⟩ := emitAll_clears [] (pendingSorted sub sub) h.wf
       (fun k hk => (Hpbf.OptLoop.mem_pendingSorted sub sub k).2 hk) h1
@@ -37,9 +49,11 @@ theorem ChildPre.emit {shP shC : Int} {pc : List (Rebuild w)} {sub0 sub : Rebuil
       exact List.append_cancel_left (res'.insts.symm.trans res.insts)
     rw [hcc] at ef
     have hss : sub1.subShift = false := by rw [res.hdr.2.2.2.2]; exact h.noShift
-    refine ⟨⟨h.rep.emit res, ?_, ?_, hss, fun _ => hcl, h.w0, h.entry⟩, res.wf, res.hdr.2.2.1⟩
+    refine ⟨⟨h.rep.emit res, ?_, ?_, ?_, hss, fun _ => hcl, h.w0, h.entry⟩, res.wf, res.hdr.2.2.1⟩
     · rw [res.insts]
       exact h.foot.trans (ef.foot.footStep.toV (fun _ => True)) (fun _ _ _ _ => trivial) ef.mono
+    · rw [res.insts]
+      exact h.badfoot.then_noBlocks (noBlocks_calcs c) ef.mono
     · -- the emitted groups write their targets, which get `written` entries
       rw [res.insts]
       have hphys : sub1.subShift = false → nsL (c.map Instr.calc) ∧
@@ -63,7 +77,7 @@ theorem ChildPre.emit {shP shC : Int} {pc : List (Rebuild w)} {sub0 sub : Rebuil
   · rename_i hn
     rw [run_pure] at h1
     cases h1
-    refine ⟨⟨h.rep, h.foot, h.frame2, h.noShift, fun hnr => ?_, h.w0, h.entry⟩, h.wf, rfl⟩
+    refine ⟨⟨h.rep, h.foot, h.badfoot, h.frame2, h.noShift, fun hnr => ?_, h.w0, h.entry⟩, h.wf, rfl⟩
     rw [hnr] at hn; simp at hn
 
 theorem SameHdr.symm {a b : Rebuild w} (h : SameHdr a b) : SameHdr b a :=
@@ -135,17 +149,18 @@ theorem MInvX.toMInv {D : Int → Prop} {s : Rebuild w} {ps : List (Rebuild w)} 
   ⟨funext (fun v => h.pendX v (hD v)), h.writ, h.pk⟩
 
 section Stay
-variable {shP shC cS shS : Int} {pc : List (Rebuild w)} {sub0 sub1 s3 : Rebuild w} {bodyS : List (Instr w)}
+variable {Gc : State w → Prop} {shP shC cS shS : Int} {pc : List (Rebuild w)} {sub0 sub1 s3 : Rebuild w}
+  {bodyS : List (Instr w)}
   {Dx : Int → Prop} {σS σE3 : State w}
 
 /-- One round keeps the loop-head relation. -/
-theorem stayJ_round (hc : ChildOk shP shC pc sub0 sub1 cS bodyS) (hsh : shC + shS = shP)
+theorem stayJ_round (hc : ChildOk Gc shP shC pc sub0 sub1 cS bodyS) (hsh : shC + shS = shP)
     (hread : ∀ v, v ∈ sub1.reads ∨ v = cS + shP → mGet s3.pending v = none ∧ ¬ Dx v)
     (hDx : ∀ v, Dx v → DefW sub1 v)
     {k : Nat} {σS' σE' : State w} (hJ : StayJ shP cS shS bodyS sub1 s3 Dx σS σE3 k σS' σE')
-    (hne : σS'.rd cS ≠ 0#w) :
+    (hne : σS'.rd cS ≠ 0#w) (hg : Gc σS') :
     Sim (fun a b => StayJ shP cS shS bodyS sub1 s3 Dx σS σE3 (k + 1) (a.mov shS) (b.mov 0))
-      bodyS sub1.insts σS' σE' := by
+      bodyS sub1.insts σS' σE' ∧ ¬ Bad sub1.insts σE' := by
   have hK : ∀ v, (mGet s3.pending v ≠ none ∨ Dx v) → v ∉ sub1.reads := by
     intro v hv hr
     obtain ⟨h1, h2⟩ := hread v (Or.inl hr)
@@ -164,8 +179,9 @@ theorem stayJ_round (hc : ChildOk shP shC pc sub0 sub1 cS bodyS) (hsh : shC + sh
     rintro (h | h)
     · exact h h1
     · exact h2 h
-  have hround := child_round hc (fun v => mGet s3.pending v ≠ none ∨ Dx v) hK hKc hJ.tr hJ.env hJ.ptr hag hne
-  refine hround.fin_strengthen.mono ?_
+  obtain ⟨hround, hnb⟩ :=
+    child_round hc (fun v => mGet s3.pending v ≠ none ∨ Dx v) hK hKc hJ.tr hJ.env hJ.ptr hag hne hg
+  refine ⟨hround.fin_strengthen.mono ?_, hnb⟩
   rintro a b ⟨⟨q1, q2, q3, q4, q5, q6, q7⟩, hea, _⟩
   refine ⟨q1, q2, ?_, ?_, ?_, ?_, Head.succ hJ.head hne hea, fun h => by omega, ?_, ?_⟩
   · show a.ptr + shS = b.ptr + 0 + shP
@@ -213,10 +229,9 @@ theorem stayJ_exit_minv {ps : List (Rebuild w)} {M0 : Mem w} {L : OptLoop w} {C 
     (hdrop : DropOk L C sub1 (cS + shP) Dx)
     (hdead : L.noEffect = false → ∀ vk ∈ sub1.written, C.contains vk.1 = false → Dead s3 vk.1)
     (hconstP : ∀ v ∈ mKeys sub1.written, C.contains v = true → mGet s3.pending v = none)
-    (hconst : ∀ k σk, Head cS shS bodyS σS k σk → ∀ x ∈ mKeys sub1.written, C.contains x = true →
-      memS σE3 σk x = memS σE3 σS x)
     (halo : L.atLeastOnce = true → σS.rd cS ≠ 0#w)
     {k : Nat} {σS' σE' : State w} (hJ : StayJ shP cS shS bodyS sub1 s3 Dx σS σE3 k σS' σE')
+    (hconst : ∀ x ∈ mKeys sub1.written, C.contains x = true → memS σE3 σS' x = memS σE3 σS x)
     (hk0 : k = 0 → σS.rd cS = 0#w) (hne : L.noEffect = true → k = 0) :
     MInv s3 ps M0 (memE σE') (memS σE' σS') := by
   by_cases hk : k = 0
@@ -254,7 +269,7 @@ theorem stayJ_exit_minv {ps : List (Rebuild w)} {M0 : Mem w} {L : OptLoop w} {C 
           have := hdrop.notConst v hd
           rw [hC] at this; cases this
         have h1 : memS σE' σS' v = memS σE3 σS v := by
-          rw [← hmemE v]; exact hconst k σS' hJ.head v hkeys hC
+          rw [← hmemE v]; exact hconst v hkeys hC
         have h2 : memS σE' σS' v = memE σE' v := hJ.agree v hp hnd
         have h3 : memS σE3 σS v = memE σE3 v := by
           rw [hX.pendX v hnd]; exact par_of_not_mem _ _ _ hp
@@ -277,21 +292,23 @@ theorem condZero_same (s sub : Rebuild w) (cond : Int) : SameButWritten s (condZ
   · rw [h]; exact insertWritten_same _ _ _
 
 /-- `loopOrIf` for a child that does not move the pointer. -/
-theorem loopOrIf_stay_ok {shP shC shS cS : Int} {bodyS : List (Instr w)} {oS : Bool}
+theorem loopOrIf_stay_ok' {shP shC shS cS : Int} {bodyS : List (Instr w)} {oS : Bool}
     {s : Rebuild w} {ps : List (Rebuild w)} {sub : Rebuild w} {cond : Int} {isLoop : Bool} {L : OptLoop w}
     {C : List Int} {pc : List (Rebuild w)} {sub0 : Rebuild w} {os os' : Orders} {s' : Rebuild w}
-    {G : State w → Prop}
+    {G Gc : State w → Prop}
     (hr : (loopOrIf s ps sub cond isLoop L C).run os = .ok (s', os'))
-    (hwf : Wf s) (hpre : ChildPre shP shC pc sub0 sub cS bodyS)
+    (hwf : Wf s) (hpre : ChildPre Gc shP shC pc sub0 sub cS bodyS)
     (hns : (sub.subShift || sub.shift != s.shift) = false)
     (hcond : cond = cS + shP) (hsh : shC + shS = shP)
+    (hGc : ∀ M0 σE σS, RelAt shP s ps M0 σE σS → G σS → ∀ k σk, Head cS shS bodyS σS k σk →
+      (isLoop = false → k = 0) → σk.rd cS ≠ 0#w → Gc σk)
     (halo : L.atLeastOnce = true → ∀ M0 σE σS, RelAt shP s ps M0 σE σS → G σS → σS.rd cS ≠ 0#w)
     (hnc : L.noContinue = true → ∀ M0 σE σS, RelAt shP s ps M0 σE σS → G σS →
       ∀ x, ¬ Exec [blockInstr isLoop cS shS bodyS oS] σS (.fin x))
     (hne : L.noEffect = true → ∀ M0 σE σS, RelAt shP s ps M0 σE σS → G σS →
       σS.rd cS = 0#w ∨ ∀ x, ¬ Exec [blockInstr isLoop cS shS bodyS oS] σS (.fin x))
     (hconst : ∀ M0 σE σS, RelAt shP s ps M0 σE σS → G σS → ∀ k σk, Head cS shS bodyS σS k σk →
-      ∀ x, C.contains x = true → memS σE σk x = memS σE σS x) :
+      (isLoop = false → k ≤ 1) → ∀ x, C.contains x = true → memS σE σk x = memS σE σS x) :
     Wf s' ∧ SameHdr s s' ∧
     ∃ new, s'.insts = s.insts ++ new ∧ StepNG G shP shP ps s s' [blockInstr isLoop cS shS bodyS oS] new := by
   subst hcond
@@ -351,15 +368,16 @@ theorem loopOrIf_stay_ok {shP shC shS cS : Int} {bodyS : List (Instr w)} {oS : B
     have e : b.ptr + shP + cS = b.ptr + (cS + shP) := by omega
     rw [e]; exact this
   have hround : ∀ (k : Nat) (a b : State w),
-      StayJ shP cS shS bodyS sub1 s3 Dx σS (comps.foldl doCalc σE) k a b → a.rd cS ≠ 0#w →
+      StayJ shP cS shS bodyS sub1 s3 Dx σS (comps.foldl doCalc σE) k a b → (isLoop = false → k = 0) →
+      a.rd cS ≠ 0#w →
       Sim (fun a' b' => ∃ k', StayJ shP cS shS bodyS sub1 s3 Dx σS (comps.foldl doCalc σE) k'
-        (a'.mov shS) (b'.mov 0) ∧ k' ≠ 0) bodyS sub1.insts a b ∧ ¬ Bad sub1.insts b := by
-    intro k a b hJ hne'
-    refine ⟨(stayJ_round hc hsh hread' hDx' hJ hne').mono (fun a' b' h => ⟨k + 1, h, by omega⟩), ?_⟩
-    exact child_not_bad hc (by rw [← hcondrd k a b hJ]; exact hne')
+        (a'.mov shS) (b'.mov 0) ∧ k' = k + 1) bodyS sub1.insts a b ∧ ¬ Bad sub1.insts b := by
+    intro k a b hJ hk hne'
+    obtain ⟨h1', h2'⟩ := stayJ_round hc hsh hread' hDx' hJ hne' (hGc M0 σE σS hrel hG k a hJ.head hk hne')
+    exact ⟨h1'.mono (fun a' b' h => ⟨k + 1, h, rfl⟩), h2'⟩
   -- simulation up to the loop-head relation
   have hsim0 : Sim (fun a b => ∃ k, StayJ shP cS shS bodyS sub1 s3 Dx σS (comps.foldl doCalc σE) k a b ∧
-        (k = 0 → σS.rd cS = 0#w) ∧ (isLoop = true → b.rd (cS + shP) = 0#w))
+        (k = 0 → σS.rd cS = 0#w) ∧ (isLoop = true → b.rd (cS + shP) = 0#w) ∧ (isLoop = false → k ≤ 1))
       [blockInstr isLoop cS shS bodyS oS]
       [if isLoop then Instr.loop (cS + shP) 0 sub1.insts L.atLeastOnce
         else Instr.ifnz (cS + shP) 0 sub1.insts] σS (comps.foldl doCalc σE) := by
@@ -371,38 +389,38 @@ theorem loopOrIf_stay_ok {shP shC shS cS : Int} {bodyS : List (Instr w)} {oS : B
       · rintro a b ⟨k, hJ⟩; rw [hcondrd k a b hJ]
       · rintro a b ⟨k, hJ⟩; exact hJ.tr.symm
       · rintro a b ⟨k, hJ⟩ hne'
-        exact (hround k a b hJ hne').1.mono (fun a' b' ⟨k', h, _⟩ => ⟨k', h⟩)
+        exact (hround k a b hJ (fun h => by cases h) hne').1.mono (fun a' b' ⟨k', h, _⟩ => ⟨k', h⟩)
       · rintro a b ⟨k, hJ⟩ hz
-        refine ⟨k, hJ, fun hk => ?_, fun _ => by rw [← hcondrd k a b hJ]; exact hz⟩
+        refine ⟨k, hJ, fun hk => ?_, fun _ => by rw [← hcondrd k a b hJ]; exact hz, fun e => by cases e⟩
         rw [(hJ.first hk).1] at hz; exact hz
     | false =>
       simp only [blockInstr, Bool.false_eq_true, if_false]
       refine Sim.ifnz ?_ hJ0.tr.symm ?_ ?_
       · rw [hcondrd 0 _ _ hJ0]
       · intro hne'
-        refine (hround 0 _ _ hJ0 hne').1.mono ?_
+        refine (hround 0 _ _ hJ0 (fun _ => rfl) hne').1.mono ?_
         rintro a' b' ⟨k', h, hk'⟩
-        exact ⟨k', h, fun e => absurd e hk', fun e => by cases e⟩
+        exact ⟨k', h, fun e => by omega, fun e => False.elim e, fun _ => by omega⟩
       · intro hz
-        exact ⟨0, hJ0, fun _ => hz, fun e => by cases e⟩
+        exact ⟨0, hJ0, fun _ => hz, fun e => False.elim e, fun _ => by omega⟩
   refine ⟨Sim.calcs_right comps ?_, ?_⟩
   · cases hncv : L.noContinue with
     | true => exact hsim0.of_no_fin (hnc hncv M0 σE σS hrel hG)
     | false =>
       refine hsim0.fin_strengthen.mono ?_
-      rintro a b ⟨⟨k, hJ, hk0, hz⟩, hfinS, _⟩
+      rintro a b ⟨⟨k, hJ, hk0, hz, hk1⟩, hfinS, _⟩
       have hne' : L.noEffect = true → k = 0 := by
         intro hnev
         rcases hne hnev M0 σE σS hrel hG with h | h
         · exact (head_zero hJ.head h).1
         · exact absurd hfinS (h a)
-      have hconst' : ∀ k σk, Head cS shS bodyS σS k σk → ∀ x ∈ mKeys sub1.written, C.contains x = true →
-          memS (comps.foldl doCalc σE) σk x = memS (comps.foldl doCalc σE) σS x := by
-        intro k σk hh x _ hx
-        have := hconst M0 σE σS hrel hG k σk hh x hx
-        show σk.tape.get ((comps.foldl doCalc σE).ptr + x) = σS.tape.get ((comps.foldl doCalc σE).ptr + x)
+      have hconst' : ∀ x ∈ mKeys sub1.written, C.contains x = true →
+          memS (comps.foldl doCalc σE) a x = memS (comps.foldl doCalc σE) σS x := by
+        intro x _ hx
+        have := hconst M0 σE σS hrel hG k a hJ.head hk1 x hx
+        show a.tape.get ((comps.foldl doCalc σE).ptr + x) = σS.tape.get ((comps.foldl doCalc σE).ptr + x)
         rw [m1]; exact this
-      have hm3 := stayJ_exit_minv hX hdrop hdead hconstP hconst' (fun h => halo h M0 σE σS hrel hG) hJ hk0 hne'
+      have hm3 := stayJ_exit_minv hX hdrop hdead hconstP (fun h => halo h M0 σE σS hrel hG) hJ hconst' hk0 hne'
       -- the condition cell after the block
       obtain ⟨p1, p2⟩ := hread' (cS + shP) (Or.inr rfl)
       have hcz0 : ∀ e, mGet sub1.written (cS + shP) = some (.known e) → Expr.constant e = some 0#w →
@@ -446,7 +464,7 @@ theorem loopOrIf_stay_ok {shP shC shS cS : Int} {bodyS : List (Instr w)} {oS : B
         (comps.foldl doCalc σE) k a b) (cS := cS) (shS := shS) (bodyS := bodyS) ?_ ⟨0, hJ0⟩ ?_
       · rintro a b ⟨k, hJ⟩ hne'
         have hne'' : a.rd cS ≠ 0#w := by rw [hcondrd k a b hJ]; exact hne'
-        obtain ⟨hs, hb⟩ := hround k a b hJ hne''
+        obtain ⟨hs, hb⟩ := hround k a b hJ (fun h => by cases h) hne''
         exact ⟨hs.mono (fun a' b' ⟨k', h, _⟩ => ⟨k', h⟩), hb⟩
       · intro hal
         rw [← hcondrd 0 _ _ hJ0]
@@ -455,7 +473,30 @@ theorem loopOrIf_stay_ok {shP shC shS cS : Int} {bodyS : List (Instr w)} {oS : B
       simp only [Bool.false_eq_true, if_false]
       refine not_bad_ifnz ?_
       intro hne'
-      exact (hround 0 _ _ hJ0 (by rw [hcondrd 0 _ _ hJ0]; exact hne')).2
+      exact (hround 0 _ _ hJ0 (fun _ => rfl) (by rw [hcondrd 0 _ _ hJ0]; exact hne')).2
+
+/-- `loopOrIf_stay_ok'` with the constancy fact at every head. -/
+theorem loopOrIf_stay_ok {shP shC shS cS : Int} {bodyS : List (Instr w)} {oS : Bool}
+    {s : Rebuild w} {ps : List (Rebuild w)} {sub : Rebuild w} {cond : Int} {isLoop : Bool} {L : OptLoop w}
+    {C : List Int} {pc : List (Rebuild w)} {sub0 : Rebuild w} {os os' : Orders} {s' : Rebuild w}
+    {G Gc : State w → Prop}
+    (hr : (loopOrIf s ps sub cond isLoop L C).run os = .ok (s', os'))
+    (hwf : Wf s) (hpre : ChildPre Gc shP shC pc sub0 sub cS bodyS)
+    (hns : (sub.subShift || sub.shift != s.shift) = false)
+    (hcond : cond = cS + shP) (hsh : shC + shS = shP)
+    (hGc : ∀ M0 σE σS, RelAt shP s ps M0 σE σS → G σS → ∀ k σk, Head cS shS bodyS σS k σk →
+      (isLoop = false → k = 0) → σk.rd cS ≠ 0#w → Gc σk)
+    (halo : L.atLeastOnce = true → ∀ M0 σE σS, RelAt shP s ps M0 σE σS → G σS → σS.rd cS ≠ 0#w)
+    (hnc : L.noContinue = true → ∀ M0 σE σS, RelAt shP s ps M0 σE σS → G σS →
+      ∀ x, ¬ Exec [blockInstr isLoop cS shS bodyS oS] σS (.fin x))
+    (hne : L.noEffect = true → ∀ M0 σE σS, RelAt shP s ps M0 σE σS → G σS →
+      σS.rd cS = 0#w ∨ ∀ x, ¬ Exec [blockInstr isLoop cS shS bodyS oS] σS (.fin x))
+    (hconst : ∀ M0 σE σS, RelAt shP s ps M0 σE σS → G σS → ∀ k σk, Head cS shS bodyS σS k σk →
+      ∀ x, C.contains x = true → memS σE σk x = memS σE σS x) :
+    Wf s' ∧ SameHdr s s' ∧
+    ∃ new, s'.insts = s.insts ++ new ∧ StepNG G shP shP ps s s' [blockInstr isLoop cS shS bodyS oS] new :=
+  loopOrIf_stay_ok' hr hwf hpre hns hcond hsh hGc halo hnc hne
+    (fun M0 σE σS hrel hG k σk hh _ => hconst M0 σE σS hrel hG k σk hh)
 
 end OptProof
 end Hpbf
